@@ -216,7 +216,7 @@ def run_history(ctx, rng, zname, factory, steps):
                         return
             elif kind == "open_serial":
                 ctx.count("mon.serial_lookup")
-                cand = [s for s in serials.values() if s is not None] + [12345]
+                cand = [s for s in serials.values() if s is not None] + [12345, 0]
                 s = rng.choice(cand)
                 want = next((i for i in reversed(V) if serials.get(i) == s), None)
                 try:
@@ -248,8 +248,15 @@ def run_history(ctx, rng, zname, factory, steps):
                             w.add(o, rng.choice((60, 300)), rd)
                         else:
                             w.delete(o)
-                    if rng.random() < 0.8:
+                    r_ = rng.random()
+                    if r_ < 0.7:
                         w.update_serial(rng.choice((1, 1, 2)))
+                    elif r_ < 0.85:
+                        # an explicitly stored serial, including 0 (legal; reachable by replacing the SOA or by wrap-around on the server)
+                        apex = lname(origin)
+                        cur_soa = w.get(apex, "SOA")
+                        if cur_soa is not None and len(cur_soa):
+                            w.replace(apex, dns.rdataset.from_rdata(cur_soa.ttl, cur_soa[0].replace(serial=rng.choice((0, 0, 7, 2**32 - 1)))))
                     changed = w.changed()
                 if kind == "rollback":
                     w.rollback()
